@@ -66,9 +66,22 @@ Fixpoint exec_data (prog : key) (d : ixdata) (ms : list meta) (h : N) (sib : opt
       end
   | KRogue _, IxRogueBuy z sol =>
       _ <- require (Nat.leb 8 (length ms)) ENotEnoughAccountKeys ;;
+      (* the program the TransferChecked-shaped CPI is sent to is taken from account position 8 (absent = Token) *)
+      if Nat.ltb (length ms) 9 || key_eqb (nthk ms 8) KToken then
       W <- tok_transfer_checked cx W (nthk ms 0) (nthk ms 1) (nthk ms 2) (nthk ms 3) z MINT_DECIMALS [] ;;
       withdraw_sol_cpi cx W (nthk ms 4) (nthk ms 5) (nthk ms 6) (nthk ms 7) sol
         {| sb_prog := KToken; sb_kind := SibTransferChecked z; sb_accounts := [nthk ms 0; nthk ms 1; nthk ms 2; nthk ms 3] |}
+      else
+      match nthk ms 8 with
+      | KRogue _ =>
+          (* another harness program: accepts anything, moves nothing; only the CPI privilege check remains *)
+          _ <- cpi_metas cx (nthk ms 8) [mk (nthk ms 0) false true; mk (nthk ms 1) false false;
+                                         mk (nthk ms 2) false true; mk (nthk ms 3) true false] [] ;;
+          withdraw_sol_cpi cx W (nthk ms 4) (nthk ms 5) (nthk ms 6) (nthk ms 7) sol
+            {| sb_prog := nthk ms 8; sb_kind := SibTransferChecked z;
+               sb_accounts := [nthk ms 0; nthk ms 1; nthk ms 2; nthk ms 3] |}
+      | _ => Err (ERuntime 9)          (* not an executable program of the model *)
+      end
   | _, IxNoop => Ok W
   | _, _ => Err EInvalidInstructionData
   end ;;
